@@ -279,8 +279,11 @@ macro_rules! plan_ctl {
         }
         impl<'c> MultiDispatchController<'c> for $name {
             type SystemData = $data;
-            fn plan(&mut self, _: $data) -> usize {
+            fn plan(&mut self, _data: $data) -> usize {
+                // the controller's declared data is really borrowed while plan runs: that is the window an outside
+                // system conflicting with the controller's data must stay out of
                 self.ctx.ev(EvK::Enter, self.uid);
+                self.ctx.hold(self.uid);
                 self.ctx.ev(EvK::Exit, self.uid);
                 self.n
             }
